@@ -69,6 +69,8 @@ def classify(test: ast.expr) -> tuple[str, Optional[str], bool]:
         vars_ = {p[1] for p in parts}
         if len(vars_) == 1 and forms <= BASE:
             return "base-group", next(iter(vars_)), neg
+        if isinstance(t.op, ast.Or) and len(vars_) == 1 and None not in vars_ and "other" not in forms:
+            return "multi:" + "+".join(sorted(forms)), next(iter(vars_)), neg
     return "other", None, neg
 
 
